@@ -282,7 +282,8 @@ def plan_C17(b, tier, seed):
            [A_mle(b, c, "mv", 0, 8) for c in ("f3", "f5", "f7", "f13")]
 
 def plan_C18(b, tier, seed):
-    return [lambda: toy_replay(b, "container", "MC_Container", "zoo", "all", workers=8, label="A:container:zoo")]
+    mode = "all" if tier == "quick" else "deep"
+    return [lambda: toy_replay(b, "container", "MC_Container", "zoo", mode, workers=8, timeout=3000, label="A:container:zoo:%s" % mode)]
 
 def curves_bin(b): return b.replace("vh-core", "vh-curves")
 def B_pairing(b, engine, seed, n, timeout=1500):
